@@ -168,6 +168,9 @@ pub struct Case {
     pub globals: Vec<(String, String)>,
     pub fault: Fault,
     pub kind: String,
+    /// selects among equivalent spellings of the options (-z/--lazy, -q/--quiet, -o/--output,
+    /// --output=F, --global=k=v) and their order relative to the positionals
+    pub spelling: u64,
 }
 
 impl Case {
@@ -176,7 +179,7 @@ impl Case {
             "tsg": self.tsg, "source": self.source, "lazy": self.lazy, "json": self.json, "output": self.output,
             "output_preexisting": self.output_preexisting, "quiet": self.quiet, "allow_parse_errors": self.allow_parse_errors,
             "globals": self.globals.iter().map(|(k, v)| json!([k, v])).collect::<Vec<_>>(),
-            "fault": self.fault.to_json(), "kind": self.kind, "argv": self.argv(),
+            "fault": self.fault.to_json(), "kind": self.kind, "argv": self.argv(), "spelling": self.spelling,
         })
     }
     fn from_json(j: &J) -> Case {
@@ -195,32 +198,56 @@ impl Case {
                 .unwrap_or_default(),
             fault: Fault::from_json(&j["fault"]),
             kind: j["kind"].as_str().unwrap_or("").into(),
+            spelling: j["spelling"].as_u64().unwrap_or(0),
         }
     }
     fn argv(&self) -> Vec<String> {
-        let mut a: Vec<String> = Vec::new();
-        // options are interleaved with positionals in a fixed, legal order
+        let mut r = Rng::new(self.spelling);
+        // option groups (an option and its value stay together)
+        let mut groups: Vec<Vec<String>> = Vec::new();
         if self.lazy {
-            a.push("--lazy".into());
+            groups.push(vec![if self.spelling != 0 && r.chance(1, 2) { "-z".into() } else { "--lazy".into() }]);
         }
-        a.push("prog.tsg".into());
         if self.json {
-            a.push("--json".into());
+            groups.push(vec!["--json".into()]);
         }
-        a.push("src.py".into());
         if self.output {
-            a.push("--output".into());
-            a.push("out.json".into());
+            groups.push(match if self.spelling == 0 { 0 } else { r.below(3) } {
+                0 => vec!["--output".into(), "out.json".into()],
+                1 => vec!["-o".into(), "out.json".into()],
+                _ => vec!["--output=out.json".into()],
+            });
         }
         if self.quiet {
-            a.push("--quiet".into());
+            groups.push(vec![if self.spelling != 0 && r.chance(1, 2) { "-q".into() } else { "--quiet".into() }]);
         }
         if self.allow_parse_errors {
-            a.push("--allow-parse-errors".into());
+            groups.push(vec!["--allow-parse-errors".into()]);
         }
         for (k, v) in &self.globals {
-            a.push("--global".into());
-            a.push(format!("{}={}", k, v));
+            if self.spelling != 0 && r.chance(1, 3) {
+                groups.push(vec![format!("--global={}={}", k, v)]);
+            } else {
+                groups.push(vec!["--global".into(), format!("{}={}", k, v)]);
+            }
+        }
+        if self.spelling != 0 {
+            r.shuffle(&mut groups);
+        }
+        // the two positionals keep their relative order; options go before, between, after
+        let mut a: Vec<String> = Vec::new();
+        let cut1 = if self.spelling == 0 { groups.len().min(1) } else { r.below(groups.len() + 1) };
+        let cut2 = if self.spelling == 0 { groups.len().min(2).max(cut1) } else { cut1 + r.below(groups.len() - cut1 + 1) };
+        for g in &groups[..cut1] {
+            a.extend(g.iter().cloned());
+        }
+        a.push("prog.tsg".into());
+        for g in &groups[cut1..cut2] {
+            a.extend(g.iter().cloned());
+        }
+        a.push("src.py".into());
+        for g in &groups[cut2..] {
+            a.extend(g.iter().cloned());
         }
         a
     }
@@ -494,7 +521,7 @@ pub fn judge(c: &Case, exp: &Expect, o: &Observed) -> Option<Found> {
     }
 }
 
-const GLOBAL_VALUES: &[&str] = &["a/b/c.py", "x=y", "two words", "héé", "", "=", "plain", "x1y22z333"];
+const GLOBAL_VALUES: &[&str] = &["a/b/c.py", "x=y", "two words", "héé", "", "=", "plain", "x1y22z333", "a,b", "a,k=v", "--json", "-q", "\"quoted\"", "tab\there"];
 
 pub fn make_case(ctx: &ShardCtx, i: u64) -> Case {
     let seed = ctx.run_seed(i);
@@ -562,6 +589,7 @@ pub fn make_case(ctx: &ShardCtx, i: u64) -> Case {
         globals,
         fault,
         kind: kind.to_string(),
+        spelling: if r.chance(1, 4) { 0 } else { r.next() | 1 },
     }
 }
 
